@@ -27,6 +27,14 @@ def unbits(b):
 _CLASSES = {}
 
 
+class ScriptedWarning(Warning):
+    """A warning category of the user's own (not a RuntimeWarning)."""
+
+
+WARNING_CATEGORIES = {'RuntimeWarning': RuntimeWarning, 'UserWarning': UserWarning, 'FutureWarning': FutureWarning,
+                      'DeprecationWarning': DeprecationWarning, 'Warning': Warning, 'ScriptedWarning': ScriptedWarning}
+
+
 def scripted_class(nE, check, mixins=(), exo=('X',)):
     """BaseModel subclass with endogenous E0..E{nE-1}, CHECK = the given subset, whose passes and hooks play a
     script and which logs every solver-initiated call and the check vector after each pass."""
@@ -41,6 +49,16 @@ def scripted_class(nE, check, mixins=(), exo=('X',)):
         NAMES = ENDOGENOUS + EXOGENOUS
         CHECK = [names[i] for i in check]
 
+        def _put(self, name, t, x):
+            """Store one value.  `write_mode` = 'rebind': replace the whole series by a new list (the container then
+            stores a NEW array under the name), as user code in a hook or `_evaluate` may legitimately do."""
+            if self.__dict__.get('write_mode', 'inplace') == 'rebind':
+                arr = [float(y) for y in self.__dict__['_' + name]]
+                arr[t] = x
+                setattr(self, name, arr)
+            else:
+                self.__dict__['_' + name][t] = x
+
         def _play(self, t, act):
             k = act['k']
             if k == 'keep':
@@ -49,18 +67,18 @@ def scripted_class(nE, check, mixins=(), exo=('X',)):
             m = act.get('m', 0)
             if k == 'set':
                 for i, x in enumerate(v[:nE]):
-                    self.__dict__['_' + names[i]][t] = x
+                    self._put(names[i], t, x)
             elif k == 'raise':
                 for i, x in enumerate(v[:min(m, nE)]):
-                    self.__dict__['_' + names[i]][t] = x
+                    self._put(names[i], t, x)
                 raise RuntimeError('scripted exception')
             elif k == 'warn':
                 for i, x in enumerate(v[:min(m, nE)]):
-                    self.__dict__['_' + names[i]][t] = x
-                warnings.warn('scripted numerical warning', RuntimeWarning)
+                    self._put(names[i], t, x)
+                warnings.warn('scripted warning', WARNING_CATEGORIES[act.get('cat', 'RuntimeWarning')])
                 for i, x in enumerate(v[:nE]):
                     if i >= m:
-                        self.__dict__['_' + names[i]][t] = x
+                        self._put(names[i], t, x)
             else:
                 raise AssertionError(k)
 
@@ -121,7 +139,39 @@ def build_instance(case, mixins=(), span=None, exo=('X',)):
     d['passes'] = []
     d['v0'] = None
     d['seen_at_before'] = None
+    d['write_mode'] = case.get('write', 'inplace')
     return m
+
+
+def vary_implementation_side(case, rng):
+    """Choices that the property (and the model) cannot see but the code might: how user code stores a value
+    (in place / by rebinding the series to a new list) and the category of a warning."""
+    case['write'] = rng.choice(['inplace', 'inplace', 'rebind'])
+    cats = list(WARNING_CATEGORIES)
+    for acts in case['script'] + [case['before'], case['after']]:
+        for a in acts:
+            if a.get('k') == 'warn':
+                a['cat'] = rng.choice(cats)
+    return case
+
+
+SPAN_KINDS = ['range', 'list', 'nparray', 'npshift', 'npstr', 'tuple']
+
+
+def span_of(kind, n):
+    if kind == 'range':
+        return range(n)
+    if kind == 'list':
+        return list(range(n))
+    if kind == 'tuple':
+        return tuple(range(10, 10 + n))
+    if kind == 'nparray':
+        return np.arange(n)
+    if kind == 'npshift':
+        return np.arange(-2, n - 2)
+    if kind == 'npstr':
+        return np.array([f'p{i}' for i in range(n)])
+    raise AssertionError(kind)
 
 
 def opts_kwargs(o, tol_bits):
@@ -165,8 +215,10 @@ def run_impl_solve_t(case, mixins=(), extra_kwargs=None):
 
 
 def run_impl_solve_period(case, mixins=(), extra_kwargs=None):
-    """Run the real solve_period on the period that `case['t']` denotes (span = range(n): label == position)."""
-    m = build_instance(case, mixins)
+    """Run the real solve_period on the period that `case['t']` denotes (`case['span_kind']` picks the span type;
+    the label handed over is the span's own element at that position)."""
+    span = span_of(case.get('span_kind', 'list'), case['n'])
+    m = build_instance(case, mixins, span=span)
     kw = opts_kwargs(case['opts'], case['tol'])
     if extra_kwargs:
         kw.update(extra_kwargs)
@@ -174,7 +226,7 @@ def run_impl_solve_period(case, mixins=(), extra_kwargs=None):
     with warnings.catch_warnings():
         warnings.simplefilter('ignore')
         try:
-            r = m.solve_period(pos, **kw)
+            r = m.solve_period(span[pos], **kw)
             tag = 'ret:T' if r is True or (r is not False and bool(r)) else 'ret:F'
         except Exception as e:  # noqa: BLE001
             tag = exc_name(e)
@@ -224,6 +276,8 @@ def outcome_vals(kind, prev, nE):
         v = [p + 0.125 if np.isfinite(p) else 1.0 for p in prev]
         v[-1] = (prev[-1] if np.isfinite(prev[-1]) else 0.0) - 2.0
         return v
+    if kind == 'huge':   # finite values whose SUM overflows: finiteness is a per-element notion
+        return [1.0e308 for p in prev]
     if kind == 'nan':
         v = [p + 1.0 if np.isfinite(p) else 1.0 for p in prev]
         v[0] = float('nan')
